@@ -68,3 +68,23 @@ Theorem C07_acquire_error_keeps : forall (rs re : Z) (backend : string) (l : lis
   snd (acquire rs re backend l) = None -> fst (acquire rs re backend l) = l.
 Proof. exact acquire_error_keeps. Qed.
 Print Assumptions C07_acquire_error_keeps.
+
+(* ---- the converter side, on the mini-converter model (coq/Model/Conv.v) ---- *)
+From HI Require Import Model.Tracker Model.Conv Proofs.ConvHist Proofs.CfgRefs_conv.
+
+(* After a full sync of any cluster, and after any history of well-formed batches of
+   partial syncs, every path of every host names a backend that exists in the model: the
+   values the host maps are written from always name a backend section. *)
+Theorem C07_model_full_refs_resolve : forall w hn hr p,
+  get_host (fst (sync_full w)) hn = Some hr -> In p (h_paths hr) ->
+  get_back (fst (sync_full w)) (hp_back p) <> None.
+Proof. exact model_full_refs_resolve. Qed.
+Print Assumptions C07_model_full_refs_resolve.
+
+Theorem C07_model_refs_resolve : forall w0 h,
+  hist_ok_o w0 h ->
+  exists x', run_hist (sync_full w0) h = Some x' /\
+    forall hn hr p, get_host (fst x') hn = Some hr -> In p (h_paths hr) ->
+      get_back (fst x') (hp_back p) <> None.
+Proof. exact model_refs_resolve. Qed.
+Print Assumptions C07_model_refs_resolve.
